@@ -245,6 +245,51 @@ func RunWorker(t *testing.T, scenarios map[string]*Scenario) {
 		}
 		write()
 		return
+	case "iso":
+		// exactly one run, in a process of its own (in.Worker is the index)
+		if sc.GenIso == nil {
+			write()
+			return
+		}
+		seed := Mix(in.Seed, StrSeed(in.Prop), uint64(in.Worker), 0x150)
+		p := sc.GenIso(NewRand(seed), in.Thorough)
+		if p.Policy == "" {
+			p.Policy = PolUniform
+		}
+		if p.Budget == 0 {
+			p.Budget = 4000
+		}
+		r := Execute(t, sc, p, NewGenChooser(Mix(seed, 1), p.Policy, p.Budget), in.MaxSteps, false)
+		progress.Add(1)
+		if r.Infra != "" {
+			out.Infra = r.Infra
+			write()
+			os.Exit(2)
+		}
+		a.add(p, r)
+		out.RandomRuns++
+		out.Probes["isolated_runs"]++
+		if len(out.Samples) < 1 {
+			out.Samples = append(out.Samples, Sample{Plan: p, Steps: r.Steps, VirtualMs: float64(r.VT) / 1e6, Faults: r.Faults, Outcome: outcome(r)})
+		}
+		if r.Viol != nil {
+			// no minimisation here: it would need a fresh process per attempt;
+			// the replay file is the run as it is
+			f := &Found{Violation: *r.Viol, Count: 1, MinSteps: r.Steps}
+			out.Found = append(out.Found, f)
+			rf := ReplayFile{Property: in.Prop, Clause: r.Viol.Clause, Stage: r.Viol.Stage, Class: r.Viol.Class, Msg: r.Viol.Msg,
+				Seed: in.Seed, Run: fmt.Sprintf("iso-%d", in.Worker), Plan: p, Tape: r.Tape, Hash: r.Hash, Steps: r.Steps, Procs: in.Procs}
+			_ = os.MkdirAll(in.ReplayDir, 0o755)
+			name := filepath.Join(in.ReplayDir, fmt.Sprintf("%s-%d-iso%d.json", in.Prop, in.Seed, in.Worker))
+			b, _ := json.MarshalIndent(rf, "", " ")
+			if err := os.WriteFile(name, b, 0o644); err != nil {
+				fmt.Fprintln(os.Stderr, "INFRA: cannot write replay file:", err)
+				os.Exit(2)
+			}
+			f.Replay = name
+		}
+		write()
+		return
 	case "hashes":
 		// determinism self-test: every run index executed here, one hash per
 		// run covering schedule, steps, virtual time and verdict
